@@ -22,10 +22,13 @@ def main():
     na_path = os.path.join(core.ROOT, 'not_applicable.json')
     if os.path.exists(na_path):
         extra_na = json.load(open(na_path))
+    reg_path = os.path.join(core.ROOT, 'registered.txt')
+    registered = set(open(reg_path).read().split())
     for p in props:
         pid = p['id']
         modpath = os.path.join(core.ROOT, 'vf', 'props', pid.lower() + '.py')
-        if pid in extra_na or not os.path.exists(modpath):
+        if (pid in extra_na or not os.path.exists(modpath)
+                or pid not in registered):
             na.append({'property_id': pid,
                        'reason': extra_na.get(pid, NOT_BUILT_REASON)})
             continue
